@@ -151,9 +151,8 @@ class ToyDecompressobj:
         self.bad = False
 
     def decompress(self, data: bytes, max_length: int = 0) -> bytes:
-        assert max_length > 0
         out = bytearray()
-        room = max_length
+        room = max_length if max_length > 0 else 1 << 62  # like zlib: 0 = no limit
         i = 0
         n = len(data)
         while True:
@@ -280,8 +279,6 @@ def make_monitored_decompressobj(e: bytes, b: bytes, log: list):
             was_eof = self._d.eof
             out = self._d.decompress(data, max_length)
             tail = self._d.unconsumed_tail
-            if max_length <= 0:
-                log.append('decompress called without a positive max_length')
             if len(out) > max_length > 0:
                 log.append(f'K1: {len(out)} bytes returned for max_length {max_length}')
             if out != b[self.produced:self.produced + len(out)]:
